@@ -233,6 +233,7 @@ static std::string wit(const char* entry, int n, int cls, uint64_t seed, ld err,
 // record  err <= bound  (relative to `norm`)
 static void judge(Res& R, const char* key, const char* cat, ld err, ld norm, ld relbound, bool finite, const std::string& w) {
     R.n_oracle++;
+    R.stats["oracle_configs"]++;
     ld rel = norm == 0 ? (err == 0 ? 0 : 1e30L) : err / norm;
     if (!finite || !(rel == rel)) rel = 1e30L;
     note(R, cat, double(rel / relbound));
@@ -498,6 +499,7 @@ static void irfft_odd(int n, uint64_t seed, bool corr, Res& R) {   // n odd or <
         const std::string e2 = thrown([&] { IfftPlanR p(n); (void)p(Z); });
         vh::clear_current();
         R.n_oracle += 2;
+        R.stats["oracle_configs"] += 2;
         if (e1 != "ERR" || e2 != "ERR") R.fails.push_back({"C02:irfft-odd-accepted", js});
         if (corr && n >= 1) R.corr.push_back({"irfft " + std::to_string(n) + " " + vh::hxs(Z), e1.empty() ? "OK" : "ERR"});
     }
@@ -578,6 +580,7 @@ static void stft_roundtrip(const StftCase& c, const arr_real& win, const arr_rea
         return;
     }
     R.n_oracle++;
+    R.stats["oracle_configs"]++;
     const int flen = c.range == 2 ? c.nfft / 2 + 1 : c.nfft;
     bool shape = int(S.size()) == nseg;
     for (auto& f : S) shape = shape && f.size() == flen;
@@ -911,6 +914,9 @@ int main(int argc, char** argv) {
         vh::clear_current();
     }
     for (auto& w : g_worst) out.stat("worst_err_over_bound_ppm_" + w.first, (long long)std::min(1e15, w.second * 1e6));
+    // distinct = distinct protocol lines + distinct oracle configurations (entry point, length, input class / stft configuration);
+    // the per-sample reconstruction checks are counted in oracle_evaluations only
+    out.stat("distinct_nontrivial", out.n_cases + out.stats["oracle_configs"]);
     out.finish();
     return 0;
 }
